@@ -50,7 +50,24 @@ def writer_variant(ctx):
 
 
 def begin_fn(ctx):
-    return ctx.A.get('begin-role')
+    """the transaction-begin function with its private, non-role helpers folded in (rules/inline.py): the begin rules reason about lock scopes and dominance
+    inside one body and must not depend on how that body is cut into helper functions"""
+    return ctx.x(ctx.A.get('begin-role'))
+
+
+def part_of(ctx, fn, view):
+    """is fn the function behind the view, or a helper that was folded into it and is reachable from the public API only through it?"""
+    if view is None:
+        return False
+    raw = getattr(view, 'raw', view)
+    if fn is raw or fn is view:
+        return True
+    if fn.kind == 'Closure' and fn.owner is not None:
+        return part_of(ctx, fn.owner, view)
+    if fn.qual in set(getattr(view, 'inlined', ())):
+        import c03
+        return c03._only_via(ctx.facts, fn, raw)
+    return False
 
 
 def writer_excl(ctx, rule='C09.writer-excl'):
@@ -74,7 +91,7 @@ def writer_excl(ctx, rule='C09.writer-excl'):
     li = L.info(bf, {wp: True})
     # constructions of the writable variant
     nagg = 0
-    for f in F.fns:
+    for f in [bf] + [g for g in F.fns if not part_of(ctx, g, bf)]:
         for bb, si, s in aggregates_of(f, 'TxLock'):
             if s['rv']['variant'] != vname:
                 continue
@@ -124,16 +141,23 @@ def file_via_guard(ctx, rule='C09.file-via-guard'):
         fs, _ = pv.of_operand(t['args'][0])
         okk = any(adt and last_seg(adt) == 'TxLock' for adt, nme in fs)
         if not okk:
-            # one level up: receiver is a parameter; check what the caller in the trace passed
-            l = op_local(t['args'][0])
-            du = ctx.du(fn)
-            root = du.root_of(l) if l is not None else None
-            if root is not None and 1 <= root <= fn.argc and n.ctx:
-                cfn, cbb, _ = n.ctx[-1]
+            # the receiver is a parameter: follow it up the trace context (helper of a helper ...) to what the outermost caller passed
+            cur_fn, cur_op, callers = fn, t['args'][0], list(n.ctx)
+            for _ in range(6):
+                l = op_local(cur_op)
+                root = ctx.du(cur_fn).root_of(l) if l is not None else None
+                if root is None or not (1 <= root <= cur_fn.argc) or not callers:
+                    break
+                cfn, cbb = callers[-1][0], callers[-1][1]
+                callers = callers[:-1]
                 ct = cfn.term(cbb)
-                pv2 = Prov(cfn)
-                fs2, _ = pv2.of_operand(ct['args'][root - 1])
-                okk = any(adt and last_seg(adt) == 'TxLock' for adt, nme in fs2)
+                if root - 1 >= len(ct['args']):
+                    break
+                cur_fn, cur_op = cfn, ct['args'][root - 1]
+                fs2, _ = Prov(cur_fn).of_operand(cur_op)
+                if any(adt and last_seg(adt) == 'TxLock' for adt, nme in fs2):
+                    okk = True
+                    break
         if okk:
             res.append(ok(rule, '%s at %s operates on the file taken from the writer lock payload' % (e['ev'], e['loc']), sites=1))
         else:
@@ -371,6 +395,11 @@ def run(ctx, tier):
     results += lock_order(ctx)
     results += reader_free_of_writer(ctx)
     results += snapshot_source(ctx)
+    import c16, c13
+    results += c16.grow(ctx, rule='C09.grow')
+    import c11
+    results += c11.remap_on_success(ctx, rule='C09.remap-on-success')
+    results += c13.file_lock_clauses(ctx, 'C09')
     return dict(
         results=results, stats=dict(ctx.stats),
         explanation=(
